@@ -43,7 +43,7 @@ theorem mdpos_write_stored {A : Accts} (a k : Bytes) (t : Token) (v' : Int) (hA 
     (hold : tokenOf (A.read a k) = some t)
     (hl : (storedForm { t with value := some v' }).length < two63) :
     MdPos (A.write a k (storedForm { t with value := some v' })) := by
-  intro a2 k2 t0 m hne hdec hm
+  intro a2 k2 t0 m hk2 hne hdec hm
   rw [Accts.read_write] at hne hdec
   by_cases he : a = a2 ∧ k = k2
   · rw [if_pos he] at hne hdec
@@ -60,9 +60,9 @@ theorem mdpos_write_stored {A : Accts} (a k : Bytes) (t : Token) (v' : Int) (hA 
       split at hold
       · cases hold; cases hm'
       · rename_i hraw
-        exact hA a k t m hraw hold hm'
+        exact hA a k t m (he.2 ▸ hk2) hraw hold hm'
   · rw [if_neg he] at hne hdec
-    exact hA a2 k2 t0 m hne hdec hm
+    exact hA a2 k2 t0 m hk2 hne hdec hm
 
 /-! ### destination side -/
 
@@ -195,7 +195,7 @@ theorem transferOne_supply (env : Env) (c : Call) (l : Bool) (dst tok : Bytes) (
   have hC' : Canon c'.accts := hCM.toCanon hS'
   obtain ⟨hmdsome, hnon⟩ := hnonce t hdec
   have hnum : NumOK t := decToken_num _ _ hdec
-  have hmdt : ∀ md, t.md = some md → md.nonce ≠ 0 := fun md hmd => hI.mdpos _ _ t md hpres hdec hmd
+  have hmdt : ∀ md, t.md = some md → md.nonce ≠ 0 := fun md hmd => hI.mdpos _ _ t md (tokKey_nft _ _) hpres hdec hmd
   -- the entry is stored under the key of its own nonce
   have hk : mdNonce t = n := by
     cases hm : t.md with
